@@ -1023,3 +1023,60 @@ pub fn good_clamp_ordered(x: i32, min: i32, max: i32) -> i32 {
         x
     }
 }
+
+// ---- a trip that skips the exit test (do-while ported as `loop` + `continue`) ----------------------------------------
+
+// the `continue` jumps over the only exit test: a run of far-away points at the wrap-around keeps the walk going forever
+pub fn loopbad_exit_continue_skips_test(ys: &[i32], start: usize, threshold: i32) -> usize {
+    if ys.is_empty() || start >= ys.len() {
+        return 0;
+    }
+    let mut last = start;
+    let mut first = start;
+    let mut seen = 0usize;
+    loop {
+        first = last;
+        if last < ys.len() - 1 {
+            last += 1;
+        } else {
+            last = 0;
+        }
+        if (ys[start] - ys[first]).abs() > threshold {
+            continue;
+        }
+        seen += 1;
+        if last == start {
+            break;
+        }
+    }
+    seen
+}
+
+// the same walk with the exit test repeated in front of the `continue`: every trip can end the loop
+pub fn loopgood_exit_continue_checks_test(ys: &[i32], start: usize, threshold: i32) -> usize {
+    if ys.is_empty() || start >= ys.len() {
+        return 0;
+    }
+    let mut last = start;
+    let mut first = start;
+    let mut seen = 0usize;
+    loop {
+        first = last;
+        if last < ys.len() - 1 {
+            last += 1;
+        } else {
+            last = 0;
+        }
+        if (ys[start] - ys[first]).abs() > threshold {
+            if last == start {
+                break;
+            }
+            continue;
+        }
+        seen += 1;
+        if last == start {
+            break;
+        }
+    }
+    seen
+}
